@@ -334,7 +334,8 @@ def pass23_any_number(c):
 # ------------------------------------------------------------------------------------ bounded part
 
 WORDS = ["a", "I", "to", "the", "over", "lazy", "quick", "jumps", "captions", "extraordinary", "W" * 33, "x" * 40,
-         "She", "sells", "sea", "shells", "down", "by", "shore", "don't", "\"quoted\"", "100%", "a&b", "é", "ñ", "½"]
+         "She", "sells", "sea", "shells", "down", "by", "shore", "don't", "\"quoted\"", "100%", "a&b", "é", "ñ", "½",
+         "well-documented", "state-of-the-art", "mother-in-law", "re-read", "-", "--", "twenty-one"]
 
 
 def make_text(rng):
@@ -343,13 +344,57 @@ def make_text(rng):
 
 
 def expected_rows(lines):
+    """an estimate of the rows a caption needs (for the transmission budget only; the rows actually written are
+    judged by rows_follow_the_statement)"""
     rows = []
     for ln in lines:
-        rows += textwrap.fill(ln, 32).split("\n") if ln else [""]
+        rows += textwrap.fill(ln, 32, break_on_hyphens=False).split("\n") if ln else [""]
     return rows
 
 
+def rows_follow_the_statement(lines, rows):
+    """the statement's layout rule, not a copy of the code's: every row has at most 32 columns; read in order, the rows
+    give back the words of the source lines - a word of more than 32 characters may come in several pieces, every other
+    word is whole (so rows are broken at spaces only); words of different source lines never share a row; no row is
+    wasted (a row and the first word of the next row would not have fitted together)"""
+    if any(len(r) > 32 for r in rows):
+        return "a row has more than 32 columns"
+    src = [(w, li) for li, ln in enumerate(lines) for w in ln.split()]
+    toks = [(w, ri) for ri, r in enumerate(rows) for w in r.split()]
+    k = 0
+    row_line = {}
+    for w, li in src:
+        if k < len(toks) and toks[k][0] == w:
+            used = [toks[k]]
+            k += 1
+        elif len(w) > 32:
+            acc, used = "", []
+            while k < len(toks) and len(acc) < len(w):
+                acc += toks[k][0]
+                used.append(toks[k])
+                k += 1
+            if acc != w:
+                return f"the pieces of the long word {w!r} do not give it back"
+        else:
+            return f"word {w!r} is not whole in the rows (row broken inside a word or at a hyphen?)"
+        for _, ri in used:
+            if row_line.setdefault(ri, li) != li:
+                return "words of two source lines share a row"
+    if k != len(toks):
+        return "rows contain more than the source words"
+    for ri in range(len(rows) - 1):
+        nxt = rows[ri + 1].split()
+        if rows[ri].strip() and nxt and row_line.get(ri) == row_line.get(ri + 1) and len(nxt[0]) <= 32 \
+                and len(rows[ri].rstrip()) + 1 + len(nxt[0]) <= 32:
+            return "a row was broken although the next word still fitted"
+    return None
+
+
+SHOWN_ROWS = []          # rows the reference decoder shows for the captions of the last document checked
+
+
 def check_output(doc, caps, spacing_ok):
+    del SHOWN_ROWS[:]
     """structure of the SCC text + what a reference decoder shows"""
     if not doc.startswith(C.HEADER + "\n\n"):
         return False, {"header": doc[:30]}
@@ -386,9 +431,10 @@ def check_output(doc, caps, spacing_ok):
         return False, {"captions_shown": len(shown), "expected": len(caps)}
     for sh, (start, lines) in zip(shown, caps):
         rows = [C.row_text(sh["rows"][r]) for r in sorted(sh["rows"])]
-        exp = expected_rows(lines)
-        if [r.strip() for r in rows] != [r.strip() for r in exp] or any(len(r) > 32 for r in rows):
-            return False, {"rows": rows, "expected": exp}
+        why = rows_follow_the_statement(lines, rows)
+        if why:
+            return False, {"rows": rows, "source_lines": lines, "layout_rule_broken": why}
+        SHOWN_ROWS.append(rows)
         if max(sh["rows"]) != 15 or sorted(sh["rows"]) != list(range(16 - len(rows), 16)):
             return False, {"screen_rows": sorted(sh["rows"])}
         if spacing_ok:
@@ -417,7 +463,8 @@ def bounded(ctx, b):
     crafted = [["She sells sea shells down by the sea shore"], ["W" * 40], ["x" * 32], ["a b"], ["one", "two", "three", "four"],
                # one source line that needs five (and eight) rows of 32 columns
                ["aaaaaaaaaaaa bbbbbbbbbbbbbbbbbbbb cccccccccccc dddddddddddddddddddd eeeeeeeeeeee"],
-               [" ".join(ch * 17 for ch in "abcdefgh")], ["x" * 32 + " " + "y" * 32, "z" * 70]]
+               [" ".join(ch * 17 for ch in "abcdefgh")], ["x" * 32 + " " + "y" * 32, "z" * 70],
+               ["an extraordinarily well-documented state-of-the-art example"], ["aaaa bbbb cccc dddd eeee well-being"]]
     for i in range(n + len(crafted)):
         k = rng.choice([1, 2, 3])
         caps, t = [], 0
@@ -441,7 +488,8 @@ def bounded(ctx, b):
                 return False, detail
             back = shared(SCCReader).read(doc).get_captions("en-US")
             got = [" ".join(c_.get_text().split()) for c_ in back]
-            exp = [" ".join(" ".join(expected_rows(lines)).split()) for _, lines, _ in caps]
+            # (the words a reference decoder shows: validated against the source lines just above)
+            exp = [" ".join(" ".join(rows).split()) for rows in SHOWN_ROWS]
             return got == exp, {"reread": got, "expected": exp}
         b.guard(("write", i), one, sample={"captions": [(s, lines) for s, lines, _ in caps]})
 
